@@ -223,7 +223,7 @@ func (st Style) Expr(e Node) string {
 		}
 		return "(" + st.Expr(e["l"].(Node)) + neg(e) + " IN (" + strings.Join(items, ", ") + "))"
 	case "insub":
-		return "(" + st.Expr(e["l"].(Node)) + " IN (" + st.sub().Query(e["q"].(Node)) + "))"
+		return "(" + st.Expr(e["l"].(Node)) + neg(e) + " IN (" + st.sub().Query(e["q"].(Node)) + "))"
 	case "between":
 		return "(" + st.Expr(e["e"].(Node)) + neg(e) + " BETWEEN " + st.Expr(e["lo"].(Node)) + " AND " + st.Expr(e["hi"].(Node)) + ")"
 	case "is":
